@@ -58,7 +58,7 @@ func Run(c *core.Ctx) {
 		if len(env.Close) == 0 {
 			continue
 		}
-		sc := h1.Concretise(env, rng, origin.Addr(), c.Thorough())
+		sc := h1.Concretise(env, rng, origin.Addr(), true) // multi-megabyte bodies in every tier
 		key := ""
 		if len(env.Close) >= 2 || env.Finish || strings.Contains(env.Key, "true") {
 			key = env.Key
